@@ -80,6 +80,16 @@ func extractSubs() {
 
 	// --- buffer sizes -------------------------------------------------------
 	chanCap, chanOK, queueBuf, queueOK := 0, false, 0, false
+	replyCap, replyOK, replySends := 0, false, 0
+	if f != nil {
+		// sends of the handler's reply to a registration: `<x>.errChan <- ...`
+		ast.Inspect(f, func(n ast.Node) bool {
+			if snd, ok := n.(*ast.SendStmt); ok && strings.HasSuffix(src(snd.Chan), ".errChan") {
+				replySends++
+			}
+			return true
+		})
+	}
 	if f != nil {
 		// the `newSubscription{...}` literal, wherever in the file it is built
 		ast.Inspect(f, func(n ast.Node) bool {
@@ -99,6 +109,12 @@ func extractSubs() {
 				}
 			case key == "ntfnChan" && src(c.Fun) == "make" && len(c.Args) == 1:
 				chanCap, chanOK = 0, true // unbuffered
+			case key == "errChan" && src(c.Fun) == "make" && len(c.Args) == 2:
+				if v, ok := intValue(c.Args[1]); ok {
+					replyCap, replyOK = v, true
+				}
+			case key == "errChan" && src(c.Fun) == "make" && len(c.Args) == 1:
+				replyCap, replyOK = 0, true // unbuffered
 			case key == "ntfnQueue" && strings.HasSuffix(src(c.Fun), "NewConcurrentQueue") && len(c.Args) == 1:
 				if v, ok := intValue(c.Args[0]); ok {
 					queueBuf, queueOK = v, true
@@ -108,6 +124,8 @@ func extractSubs() {
 		})
 	}
 	nat("ntfnChanCap", chanCap, chanOK, "capacity of a subscriber's outgoing channel: `ntfnChan: make(chan BlockNtfn, N)` in NewSubscription")
+	nat("replyChanCap", replyCap, replyOK, "capacity of the channel on which the handler answers a registration: `errChan: make(chan error, N)` in the newSubscription literal")
+	nat("replySendSites", replySends, f != nil, "number of send statements into a `.errChan` in blockntfns/manager.go (the handler's one reply per registration)")
 	nat("queueOutBuf", queueBuf, queueOK, "output buffer of the per-subscriber queue: `queue.NewConcurrentQueue(N)` in NewSubscription")
 
 	// --- who touches the client map ----------------------------------------
